@@ -16,7 +16,8 @@ import sys
 import time
 
 VERIF = os.path.dirname(os.path.dirname(os.path.abspath(__file__)))
-REPO = "/repo"
+REPO = os.environ.get("OSACA_REPO", "/repo")
+TMP = os.environ.get("SEEDTEST_TMP", "/tmp/seedtest-%d" % os.getpid())
 BASE = json.load(open("/root/.vp/BASELINE.json"))["stable_pass"]
 
 
@@ -29,21 +30,22 @@ def clean():
 
 
 def run_demo(demo):
-    env = dict(os.environ, OSACA_REPO=REPO, HOME="/tmp/seedtest-home")
-    os.makedirs("/tmp/seedtest-home", exist_ok=True)
+    env = dict(os.environ, OSACA_REPO=REPO, HOME=TMP + "/home")
+    shutil.rmtree(TMP + "/home", ignore_errors=True)
+    os.makedirs(TMP + "/home", exist_ok=True)
     p = subprocess.run(["/venv/bin/python", "-W", "ignore", demo], stdout=subprocess.PIPE, stderr=subprocess.STDOUT, text=True, env=env, timeout=900)
     return p.returncode, p.stdout[-1500:]
 
 
 def baseline_ok():
     files = sorted({t.split(".")[1] for t in BASE})
-    cmd = ("cd %s && /venv/bin/python -m pytest -q -p no:cacheprovider --timeout=900 --continue-on-collection-errors "
-           "--junitxml=/tmp/seedtest-junit.xml %s > /tmp/seedtest-pytest.log 2>&1" % (REPO, " ".join("tests/%s.py" % f for f in files)))
+    cmd = ("cd %s && PYTHONPATH=%s /venv/bin/python -m pytest -q -p no:cacheprovider --timeout=900 --continue-on-collection-errors "
+           "--junitxml=%s/junit.xml %s > %s/pytest.log 2>&1" % (REPO, REPO, TMP, " ".join("tests/%s.py" % f for f in files), TMP))
     sh(cmd, timeout=1800)
     import xml.etree.ElementTree as ET
 
     res = {}
-    for tc in ET.parse("/tmp/seedtest-junit.xml").getroot().iter("testcase"):
+    for tc in ET.parse(TMP + "/junit.xml").getroot().iter("testcase"):
         res[tc.get("classname") + "::" + tc.get("name")] = not any(ch.tag in ("failure", "error", "skipped") for ch in tc)
     return [t for t in BASE if not res.get(t)]
 
@@ -60,7 +62,7 @@ def main():
     a = ap.parse_args()
     checks = (a.checks or a.prop).split(",")
     if not clean():
-        print("/repo has uncommitted changes; refusing")
+        print(REPO + " has uncommitted changes; refusing")
         return 2
     out = {"property": a.prop, "patch": os.path.basename(a.patch), "needs": a.needs, "ran": []}
     rc0, o0 = run_demo(a.demo)
@@ -94,6 +96,7 @@ def main():
                         pass
     finally:
         sh("git -C %s checkout -- ." % REPO)
+        shutil.rmtree(TMP, ignore_errors=True)
         # regenerate Gen from the clean tree so that the next build starts from the committed state
         sh("cd %s && git checkout -- lean/OsacaVerif/Gen 2>/dev/null; /venv/bin/python -W ignore tools/translate.py >/dev/null 2>&1" % VERIF)
     out["valid_seed"] = (out["demo_clean"] == 0 and out.get("demo_patched") == 1 and not out.get("baseline_tests_broken"))
